@@ -27,6 +27,20 @@ from nemoguardrails.rails.llm.options import (
 processing_log_var = contextvars.ContextVar("processing_log", default=None)
 
 
+def _mark_stopped_rail(activated_rail, timestamp) -> None:
+    """An input/output rail that is still open when the next rail starts has hit a stop
+    (e.g. its refusal message is now checked by the output rails)."""
+    if (
+        activated_rail is not None
+        and activated_rail.type in ["input", "output"]
+        and activated_rail.finished_at is None
+    ):
+        activated_rail.finished_at = timestamp
+        activated_rail.duration = activated_rail.finished_at - activated_rail.started_at
+        activated_rail.stop = True
+        activated_rail.decisions.append("stop")
+
+
 def compute_generation_log(processing_log: List[dict]) -> GenerationLog:
     """Computes the GenerationLog based on the processing log.
 
@@ -123,6 +137,7 @@ def compute_generation_log(processing_log: List[dict]) -> GenerationLog:
                 output_rails_started_at = event["timestamp"]
 
             elif event_type == "StartInputRail":
+                _mark_stopped_rail(activated_rail, event["timestamp"])
                 activated_rail = ActivatedRail(
                     type="input",
                     name=event_data["flow_id"],
@@ -131,6 +146,7 @@ def compute_generation_log(processing_log: List[dict]) -> GenerationLog:
                 generation_log.activated_rails.append(activated_rail)
 
             elif event_type == "StartOutputRail":
+                _mark_stopped_rail(activated_rail, event["timestamp"])
                 activated_rail = ActivatedRail(
                     type="output",
                     name=event_data["flow_id"],
